@@ -414,6 +414,10 @@ func (c *Ctx) structName(t types.Type) string {
 		p := ""
 		if nt.Obj().Pkg() != nil {
 			p = shortPkg(nt.Obj().Pkg().Path()) + "_"
+			// a type declared inside a function: its objects never escape to callers
+			if nt.Obj().Parent() != nil && nt.Obj().Parent() != nt.Obj().Pkg().Scope() {
+				p += "fnlocal_"
+			}
 		}
 		return "S_" + p + nt.Obj().Name()
 	}
